@@ -1,9 +1,16 @@
 (* Comparison functions used by the generated correspondence cases for C13 (no proofs). *)
-From Coq Require Import List Arith Bool.
+From Coq Require Import List Arith Bool ZArith.
+From LV Require Pos.MetaSpan.
 From LV Require Import Inter.Heap Inter.IDriver Gen.InterHoles.
 Import ListNotations.
 
 Definition FUEL : nat := 200.
+
+(* the implementation as the translator found it *)
+Definition impl_now : impl :=
+  {| im_deep := InterHoles.interactive_copy_default;
+     im_meta := InterHoles.tree_deepcopy_copies_meta;
+     im_lex := InterHoles.copy_rebinds_state_lexer |}.
 
 Definition kind_code (k : kind) : nat :=
   match k with KShift => 0 | KResult => 1 | KError => 2 | KStuck => 3 | KFuel => 4 end.
@@ -15,12 +22,13 @@ Fixpoint list_eqb {A} (eqb : A -> A -> bool) (a b : list A) : bool :=
   | _, _ => false
   end.
 
+(* trees are compared with their metas (all twelve position attributes) *)
 Fixpoint ptree_eqb (a b : ptree) : bool :=
   match a, b with
   | PTok x y, PTok x' y' => (x =? x') && (y =? y')
   | PNone, PNone => true
-  | PNode d ch, PNode d' ch' =>
-      (d =? d') &&
+  | PNode d m ch, PNode d' m' ch' =>
+      (d =? d') && MetaSpan.meta_eqb m m' &&
       (fix go (l l' : list ptree) : bool :=
          match l, l' with
          | [], [] => true
@@ -32,7 +40,7 @@ Fixpoint ptree_eqb (a b : ptree) : bool :=
 
 (* what the harness recorded for one operation *)
 Inductive eobs :=
-| EFed (j kd : nat) (ss : list nat)   (* parser j was fed; outcome code; its state stack, top first *)
+| EFed (j kd : nat) (ss : list nat)   (* parser j was fed: outcome code; its state stack, top first *)
 | ENew (j : nat)
 | EAcc (l : list nat).                (* accepts(), in the order of choices() *)
 
@@ -51,9 +59,10 @@ Fixpoint obss_eqb (os : list obs) (es : list eobs) : bool :=
   | _, _ => false
   end.
 
-(* at the end: for every parser the harness still holds, its state stack and the value stack
-   read off as trees (None = the harness lost the object, e.g. an immutable feed that raised) *)
-Definition final := option (list nat * list ptree).
+(* at the end: for every parser the harness still holds, its state stack, the value stack read off
+   as trees with metas, and the number of tokens its own lexer thread and the thread resume_parse()
+   reads from have yielded (None = nothing recorded for that parser) *)
+Definition final := option (list nat * list ptree * option (nat * nat)).
 
 Fixpoint finals_eqb (H : heap) (ps : list parser) (fs : list final) : bool :=
   match ps, fs with
@@ -61,31 +70,44 @@ Fixpoint finals_eqb (H : heap) (ps : list parser) (fs : list final) : bool :=
   | p :: ps', f :: fs' =>
       match f with
       | None => true
-      | Some (ss, ts) =>
+      | Some (ss, ts, lx) =>
           list_eqb Nat.eqb (p_ss p) ss &&
-          list_eqb ptree_eqb (map (read (S (length H)) H) (p_vs p)) ts
+          list_eqb ptree_eqb (map (read (S (length H)) H) (p_vs p)) ts &&
+          match lx with
+          | Some (lt, sl) => (lget H (p_lt p) =? lt) && (lget H (p_sl p) =? sl)
+          | None => true     (* the harness had no handle on the lexer threads *)
+          end
       end && finals_eqb H ps' fs'
   | _, _ => false
   end.
 
-Definition icase :=
-  (list (nat * list (nat * act)) * list (nat * list (nat * nat)) * list (nat * nat) * nat * nat *
-   list cbdata * list op * list eobs * list final)%type.
+Definition trip2 := (trip * trip)%type.
 
-Definition run_case (c : icase) : world * list obs :=
-  let '(acts, gotos, rules, s0, e0, cbs, ops, _, _) := c in
-  let T := mk_table acts gotos rules s0 e0 in
-  wrun InterHoles.interactive_copy_default FUEL T (mk_cb rules cbs) (world0 T) ops.
+Record icase := mk_icase {
+  ic_acts : list (nat * list (nat * act));
+  ic_gotos : list (nat * list (nat * nat));
+  ic_rules : list (nat * nat);
+  ic_s0 : nat; ic_e0 : nat;
+  ic_cbs : list cbdata;
+  ic_pp : bool;                          (* propagate_positions *)
+  ic_tps : list (nat * trip2);           (* positions of the tokens, by identity *)
+  ic_input : list (nat * nat);           (* tokens of the text given to parse_interactive *)
+  ic_ops : list op;
+  ic_obs : list eobs;
+  ic_finals : list final }.
 
-Definition check_case (c : icase) : bool :=
-  let '(acts, gotos, rules, s0, e0, cbs, ops, es, fs) := c in
-  let '(w, os) := run_case c in
-  cbs_wf rules cbs && obss_eqb os es && finals_eqb (w_heap w) (w_ps w) fs.
+Definition run_case_with (I : impl) (c : icase) : world * list obs :=
+  let T := mk_table (ic_acts c) (ic_gotos c) (ic_rules c) (ic_s0 c) (ic_e0 c) in
+  wrun I FUEL T (mk_env (ic_rules c) (ic_cbs c) (ic_pp c) (ic_tps c)) (ic_input c) (world0 T) (ic_ops c).
 
-(* constructor with explicit argument types (keeps elaboration of the generated case files fast) *)
-Definition mk_icase (acts : list (nat * list (nat * act))) (gotos : list (nat * list (nat * nat)))
-           (rules : list (nat * nat)) (s0 e0 : nat) (cbs : list cbdata) (ops : list op)
-           (es : list eobs) (fs : list final) : icase :=
-  (acts, gotos, rules, s0, e0, cbs, ops, es, fs).
-Definition mk_final (ss : list nat) (ts : list ptree) : final := Some (ss, ts).
+Definition check_case_with (I : impl) (c : icase) : bool :=
+  let '(w, os) := run_case_with I c in
+  cbs_wf (ic_rules c) (ic_cbs c) && obss_eqb os (ic_obs c) && finals_eqb (w_heap w) (w_ps w) (ic_finals c).
+
+Definition check_case : icase -> bool := check_case_with impl_now.
+
+Definition mk_final (ss : list nat) (ts : list ptree) (lx : option (nat * nat)) : final := Some (ss, ts, lx).
 Definition mk_cbdata (d : nat) (e1 : bool) (f : option (list (nat * bool * nat) * nat)) : cbdata := (d, e1, f).
+Definition mk_tp (id : nat) (s e : Z * Z * Z) : nat * trip2 := (id, (s, e)).
+Definition mk_meta (a b c d : option (Z * Z * Z)) : meta := MetaSpan.mkMeta a b c d.
+Definition mk_trip (a b c : Z) : Z * Z * Z := (a, b, c).
